@@ -150,6 +150,13 @@ func noP(b []byte) []byte {
 	return out
 }
 
+// well-known-type paths a module of the graph may ship itself; google/protobuf/empty.proto is
+// reserved for imports that must resolve to the built-in copy.
+var providedWKTPaths = []string{
+	"google/protobuf/timestamp.proto", "google/protobuf/any.proto", "google/protobuf/duration.proto", "google/protobuf/descriptor.proto",
+	"google/protobuf/compiler/plugin.proto", "google/protobuf/struct.proto", "google/protobuf/wrappers.proto", "google/protobuf/field_mask.proto",
+}
+
 var importForms = []string{
 	"import \"%s\";\n", "import \"%s\";\n", "import public \"%s\";\n", "import weak \"%s\";\n", "import\t'%s' ;\n", "  import \"%s\";",
 }
@@ -198,6 +205,11 @@ func genMod(t *rapid.T, st *genState, idx int, prev []Mod) Mod {
 		if k > 0 {
 			p = join(fmt.Sprintf("m%d_%d", idx, k), p)
 		}
+		if k == 0 && rapid.IntRange(0, 3).Draw(t, lbl+"-wktanchor") == 0 {
+			// the module ships a file at a well-known-type path (a wellknowntypes-style module or a
+			// vendored copy): modules importing it depend on this module like on any other
+			p = rapid.SampledFrom(providedWKTPaths).Draw(t, lbl+"-wktpath")
+		}
 		var head strings.Builder
 		if rapid.Bool().Draw(t, lbl+"-syntax") {
 			head.WriteString("syntax = \"proto3\";\n")
@@ -206,7 +218,8 @@ func genMod(t *rapid.T, st *genState, idx int, prev []Mod) Mod {
 			fmt.Fprintf(&head, rapid.SampledFrom(importForms).Draw(t, lbl+"-form"), prev[d].Anchor)
 		}
 		if rapid.IntRange(0, 3).Draw(t, lbl+"-wkt") == 0 {
-			head.WriteString("import \"google/protobuf/timestamp.proto\";\n")
+			// a well-known type nobody in the graph ships (reserved: never an anchor): not a dependency
+			head.WriteString("import \"google/protobuf/empty.proto\";\n")
 		}
 		if head.Len() > 0 && !strings.HasSuffix(head.String(), "\n") {
 			head.WriteString("\n")
